@@ -24,6 +24,7 @@ def parseOp (toks : List String) : Option FOp :=
   | ["read", h, n] => do pure (.read (← parseNat h) (← parseNat n))
   | ["readat", h, n, off] => do pure (.readAt (← parseNat h) (← parseNat n) (← parseInt off))
   | ["write", h, b] => do pure (.write (← parseNat h) (← bytesOfHex b))
+  | ["writestring", h, b] => do pure (.write (← parseNat h) (← bytesOfHex b))   -- WriteString(s) = Write([]byte(s))
   | ["writeat", h, b, off] => do pure (.writeAt (← parseNat h) (← bytesOfHex b) (← parseInt off))
   | ["trunc", h, n] => do pure (.truncate (← parseNat h) (← parseInt n))
   | ["seek", h, off, wh] => do pure (.seek (← parseNat h) (← parseInt off) (← parseNat wh))
